@@ -85,10 +85,16 @@ func (d *tDecoder) Decode(b []byte, base unsafe.Pointer, sd *structDesc, maxdept
 
 	i := 0
 	for {
+		if i >= len(b) {
+			return i, io.ErrShortBuffer
+		}
 		tp := ttype(b[i])
 		i++
 		if tp == tSTOP {
 			break
+		}
+		if len(b)-i < fieldHeaderLen-1 {
+			return i, io.ErrShortBuffer
 		}
 		fid := binary.BigEndian.Uint16(b[i:])
 		i += 2
@@ -108,6 +114,9 @@ func (d *tDecoder) Decode(b []byte, base unsafe.Pointer, sd *structDesc, maxdept
 		p := unsafe.Add(base, f.Offset) // pointer to the field
 
 		t := f.Type
+		if t.FixedSize > len(b)-i {
+			return i, fmt.Errorf("decode field %d of struct %s err: %w", fid, sd.rt.String(), io.ErrShortBuffer)
+		}
 		p = d.mallocIfPointer(t, p)
 		if t.FixedSize > 0 {
 			i += decodeFixedSizeTypes(t.T, b[i:], p)
@@ -315,6 +324,10 @@ func (d *tDecoder) decodeType(t *tType, b []byte, p unsafe.Pointer, maxdepth int
 				tmp = sliceK
 			}
 			if kt.FixedSize > 0 {
+				if kt.FixedSize > len(b)-i {
+					err = io.ErrShortBuffer
+					break
+				}
 				i += decodeFixedSizeTypes(kt.T, b[i:], tmp)
 			} else {
 				if n, err = d.decodeType(kt, b[i:], tmp, maxdepth-1); err != nil {
@@ -332,6 +345,10 @@ func (d *tDecoder) decodeType(t *tType, b []byte, p unsafe.Pointer, maxdepth int
 				tmp = sliceV
 			}
 			if vt.FixedSize > 0 {
+				if vt.FixedSize > len(b)-i {
+					err = io.ErrShortBuffer
+					break
+				}
 				i += decodeFixedSizeTypes(vt.T, b[i:], tmp)
 			} else {
 				if n, err = d.decodeType(vt, b[i:], tmp, maxdepth-1); err != nil {
